@@ -135,25 +135,38 @@ Theorem C06_refuted_D65 : exists specs now su t,
 Proof. exact refuted_D65. Qed.
 Print Assumptions C06_refuted_D65.
 
-(* ---------- the wake-up loops: conformant variants run the function at the trigger time, the code's do not ---------- *)
+(* ---------- the wake-up loops: conformant variants run the function at the trigger time, the deviating ones do not ---------- *)
 Theorem C06_legacy_wake_conformant : forall lu ul cfg f t u, d_legacy_gap_recheck cfg = false -> ul (lu t) = t ->
-  legacy_wake lu ul cfg (S (S f)) t u = Some (if ul u <? t then lu t else u).
+  legacy_wake lu ul perfect cfg (S (S f)) t u = Some (if ul u <? t then lu t else u).
 Proof. exact legacy_wake_conformant. Qed.
 Print Assumptions C06_legacy_wake_conformant.
 
 Theorem C06_default_wake_conformant : forall lu ul cfg f t adj u, d_newsub_adj_recheck cfg = false -> ul (lu t) = t ->
-  default_wake lu ul cfg (S (S f)) t adj u = Some (if (t <=? ul u) || (lu t - u <=? 1) then u else lu t).
+  default_wake lu ul perfect cfg (S (S f)) t adj u = Some (if (t <=? ul u) || (lu t - u <=? 1) then u else lu t).
 Proof. exact default_wake_conformant. Qed.
 Print Assumptions C06_default_wake_conformant.
 
+(* however the wall clock falls behind the monotonic clock during a wait (any function [wall]: steps back, slewing), the
+   function is not run before the wall clock shows the trigger time (default subsystem: its 1 us tolerance) - hence the next
+   evaluation cannot return the same instant again (C06_next_is_successor_partial: the result is strictly later than now) *)
+Theorem C06_legacy_wake_not_early : forall lu ul wall cfg fuel t u r,
+  legacy_wake lu ul wall cfg fuel t u = Some r -> t <= ul (wall r).
+Proof. exact legacy_wake_not_early. Qed.
+Print Assumptions C06_legacy_wake_not_early.
+
+Theorem C06_default_wake_not_early : forall lu ul wall cfg fuel, d_newsub_adj_recheck cfg = false -> forall t adj u r,
+  default_wake lu ul wall cfg fuel t adj u = Some r -> t <= ul (wall r) \/ lu t - wall r <= 1.
+Proof. exact default_wake_not_early. Qed.
+Print Assumptions C06_default_wake_not_early.
+
 Theorem C06_refuted_D62 : exists t adj u,
-  default_wake (tz_lu ny2024) (tz_ul ny2024) as_code 5 t adj u = Some (tz_lu ny2024 t + HOUR) /\
-  default_wake (tz_lu ny2024) (tz_ul ny2024) all_off 5 t adj u = Some (tz_lu ny2024 t).
+  default_wake (tz_lu ny2024) (tz_ul ny2024) perfect as_code 5 t adj u = Some (tz_lu ny2024 t + HOUR) /\
+  default_wake (tz_lu ny2024) (tz_ul ny2024) perfect all_off 5 t adj u = Some (tz_lu ny2024 t).
 Proof. exact refuted_D62. Qed.
 Print Assumptions C06_refuted_D62.
 
 Theorem C06_refuted_D66 : exists t u,
-  legacy_wake (tz_lu ny2024) (tz_ul ny2024) as_code 5 t u = Some (tz_lu ny2024 t + HOUR) /\
-  legacy_wake (tz_lu ny2024) (tz_ul ny2024) all_off 5 t u = Some (tz_lu ny2024 t).
+  legacy_wake (tz_lu ny2024) (tz_ul ny2024) perfect as_code 5 t u = Some (tz_lu ny2024 t + HOUR) /\
+  legacy_wake (tz_lu ny2024) (tz_ul ny2024) perfect all_off 5 t u = Some (tz_lu ny2024 t).
 Proof. exact refuted_D66. Qed.
 Print Assumptions C06_refuted_D66.
